@@ -774,8 +774,23 @@ def rw_closure_specs(toks, specs, rep, qual):
                     resolved.append((i, retdecl, ens)); free.remove(i)
                     rep.append(("hint", f"closure {text!r} #{nth}: anchor text gone, contract attached to the uncontracted closure with the same parameters (closure {i})"))
             else:
-                for (text, nth, retdecl, ens) in specs_g:
-                    rep.append(("LOST", f"closure {text!r} #{nth} not found: contract not attached"))
+                # second chance: the parameters were only renamed — same number of plain-identifier parameters; the
+                # contract follows the renaming
+                def plain(pl):
+                    names = [x for x in pl if x not in ("|", ",")]
+                    return names if pl and pl[0] == "|" and all(re.fullmatch(r"[A-Za-z_]\w*", x) for x in names) else None
+                wn = plain(list(want))
+                cands2 = [i for i in free if wn is not None and plain(params_of_closure(i)) is not None and len(plain(params_of_closure(i))) == len(wn)]
+                if CLOSURE_FALLBACK[0] and wn and len(cands2) == len(specs_g):
+                    for i, (text, nth, retdecl, ens) in zip(cands2, specs_g):
+                        ren = dict(zip(wn, plain(params_of_closure(i))))
+                        def rn(sx):
+                            return re.sub(r"\b(" + "|".join(map(re.escape, ren)) + r")\b", lambda m: ren[m.group(1)], sx)
+                        resolved.append((i, rn(retdecl), rn(ens))); free.remove(i)
+                        rep.append(("hint", f"closure {text!r} #{nth}: parameters renamed {ren}; contract attached with the same renaming (closure {i})"))
+                else:
+                    for (text, nth, retdecl, ens) in specs_g:
+                        rep.append(("LOST", f"closure {text!r} #{nth} not found: contract not attached"))
     # all insertions are computed on the original token positions and applied from the back, so that a closure nested
     # in the expression body of another one does not shift the outer closure's end
     ins = []
@@ -1706,7 +1721,7 @@ def _build_fn(sf: SourceFile, item: Item, impl, ex: Extract, props, rep, unit, a
     body_toks = list(toks_all[item.hdr_end:item.end])   # includes braces
 
     # optional: inline block extraction (R0 anchors)
-    if "block_from" in a or "block_back" in a or "block_arm" in a or "field_init" in a:
+    if "block_from" in a or "block_back" in a or "block_arm" in a or "field_init" in a or "block_closure" in a:
         body_toks = _extract_block(body_toks, a.get("block_from", ""), a.get("block_to"), a, rep)
         sig_toks = lex(a["wrap"])
         qual = qual + "#" + (a.get("blockname") or "block")
@@ -1968,7 +1983,7 @@ def _build_fn(sf: SourceFile, item: Item, impl, ex: Extract, props, rep, unit, a
         rep.append(("R0", f"fn renamed to {ex.rename}"))
     where_txt = ""
     wpos = _top_level_where(sig_toks)
-    if wpos is not None and "block_from" not in a and "block_back" not in a and "block_arm" not in a and "field_init" not in a:
+    if wpos is not None and "block_from" not in a and "block_back" not in a and "block_arm" not in a and "field_init" not in a and "block_closure" not in a:
         where_txt = text_of(sig_toks[wpos:]).strip()
         sig_text = text_of(sig_toks[:wpos]).rstrip()
     if ex.ret:
@@ -2275,11 +2290,42 @@ def _extract_block(body_toks, frm, to, a, rep):
         ah = _find_seq_any(body_toks, ap)
         if len(ah) != 1:
             raise AnchorLost(f"block_arm {a['block_arm']!r}: {len(ah)} matches")
-        ob = _next_sig(body_toks, ah[0][1])
+        endp = ah[0][1]
+        if ap[-2:] != ["=", ">"] and ap[-1] != "=>":
+            # the anchor is the head of the pattern only (`Enum::Variant`): the arm is the one whose `=>` follows at depth 0
+            # (bindings inside the pattern may be written in any way)
+            k = endp + 1
+            while k < len(body_toks):
+                tk = body_toks[k]
+                if tk.kind == PUNCT and tk.text in OPEN:
+                    k = match_close(body_toks, k) + 1; continue
+                if tk.kind == PUNCT and tk.text == "=>":
+                    break
+                if tk.kind == PUNCT and tk.text == "=" and k + 1 < len(body_toks) and body_toks[k + 1].text == ">":
+                    k += 1; break
+                if tk.kind == PUNCT and tk.text in (";", "}"):
+                    raise AnchorLost(f"block_arm {a['block_arm']!r}: no `=>` follows the pattern head")
+                k += 1
+            endp = k
+        ob = _next_sig(body_toks, endp)
         if ob >= len(body_toks) or body_toks[ob].text != "{":
             raise AnchorLost(f"block_arm {a['block_arm']!r}: the arm body is not a block")
         cb = match_close(body_toks, ob)
         rep.append(("R0", f"inline block: body of the match arm `{a['block_arm'][:60]}` wrapped as `{a['wrap']}`"))
+        tail = a.get("tail", "")
+        return [T(PUNCT, "{"), T(WS, "\n")] + body_toks[ob + 1:cb] + [T("raw", "\n" + tail + "\n"), T(PUNCT, "}")]
+    if a.get("block_closure"):
+        # the whole body `{ ... }` of the closure whose header text is given (`CALL(|params|`): independent of the text of the
+        # statements inside
+        cp = pat_tokens(a["block_closure"])
+        ch = _find_seq_any(body_toks, cp)
+        if len(ch) != 1:
+            raise AnchorLost(f"block_closure {a['block_closure']!r}: {len(ch)} matches")
+        ob = _next_sig(body_toks, ch[0][1])
+        if ob >= len(body_toks) or body_toks[ob].text != "{":
+            raise AnchorLost(f"block_closure {a['block_closure']!r}: the closure body is not a block")
+        cb = match_close(body_toks, ob)
+        rep.append(("R0", f"inline block: body of the closure `{a['block_closure'][:60]}` wrapped as `{a['wrap']}`"))
         tail = a.get("tail", "")
         return [T(PUNCT, "{"), T(WS, "\n")] + body_toks[ob + 1:cb] + [T("raw", "\n" + tail + "\n"), T(PUNCT, "}")]
     pat = pat_tokens(frm)
